@@ -163,6 +163,19 @@ Theorem C08_split_cache_refuted :
 Proof. exact split_cache_refuted. Qed.
 Print Assumptions C08_split_cache_refuted.
 
+(* A per-process memo keyed by a caller-chosen label (key id, key name) in front of a function of the
+   key material (not in the tree) answers the second key under a label with the first one's material;
+   it is harmless exactly when labels identify the material. *)
+Theorem C08_label_memo_refuted : exists calls, mrun [] calls <> map snd calls.
+Proof. exact label_memo_refuted. Qed.
+Print Assumptions C08_label_memo_refuted.
+
+Theorem C08_label_memo_distinct_labels : forall calls memo,
+  NoDup (map fst calls) -> (forall c p, In c calls -> In p memo -> fst p <> fst c) ->
+  mrun memo calls = map snd calls.
+Proof. exact mrun_distinct_labels. Qed.
+Print Assumptions C08_label_memo_distinct_labels.
+
 (* The boolean oracle evaluated on the implementation's observations decides the spec. *)
 Theorem C08_oracle_sound : forall c,
   oracle c = true <->
